@@ -475,6 +475,8 @@ func c01UpstreamReplies(c *Ctx) {
 			}
 			if r.P(0.05) {
 				h = append(h, make([]byte, 70000)...) // oversize (DoH body / dropped elsewhere)
+			} else if r.P(0.08) {
+				h = append([]byte{}, h[:min(len(h), r.Intn(3))]...) // 0, 1 or 2 octets: shorter than anything the reply paths index into
 			}
 			return h
 		})
